@@ -10,6 +10,14 @@ COMMON_NOTE = ('Trusted base: z3 4.x/5.1 (python3-vt), the symx forking engine, 
                'reals), sizes beyond the stated bounds, GPU, complex dtypes. ')
 
 CHECKS = {
+ 'C13': dict(
+    text='equal/allclose/equal_default/allclose_default/MultiTensor.allclose return Python bools: every call forks the symbolic executor, and on each path the solver decides that the returned value '
+         'is equivalent to the cell-wise IEEE (resp. isclose) comparison of the independently denoted dense tensors, for all element values incl. nan and +-inf. Symmetry, reflexivity on nan-free tensors and '
+         'representation-insensitivity (clone, densification, re-patterning) are separate obligations. Right level: the decision depends on which supports overlap and on defaults being visible or covered -- a '
+         'structure x value question.',
+    note='Bounds: ordered well-typed pattern pairs over shapes up to rank 2 / numel 6 (quick; thorough rank 3 / numel 8), capped per index type (seeded sample beyond); defaults {0,1,inf,-inf,nan}; '
+         'tolerances {(0,0),(0,1e-5),(1e-5,1e-8),(0,0.5)}; tagged elements for <=6 unknowns, finite otherwise; MultiTensor over 2 keys.',
+    technique='path-forking symbolic execution + SMT equivalence (z3 LRA)', design='5/C13'),
  'C06': dict(
     text='Every operation PatternedTensor offers (about 150 table entries incl. in-place forms, scalar variants, reductions, structural operations, reshape/view targets) is executed on the z3-valued tensor model '
          'for all well-typed operand patterns inside the bound and compared, cell by cell and for all element values, with the same torch operation applied to the independently denoted dense tensors; '
